@@ -212,6 +212,29 @@ func c07ReadFaults(c *Ctx) {
 			c.Case(idx, func(k *K) {
 				r := k.Rand()
 				x := c07Input(r, f, 60, 600)
+				// a third of the inputs with other line ends (CRLF, bare CR where the format reads it, no final newline):
+				// kept if the format decodes the variant without error items
+				if v := i % 6; v >= 3 {
+					var alt []byte
+					switch v {
+					case 3:
+						alt = bytes.ReplaceAll(x, []byte("\n"), []byte("\r\n"))
+					case 4:
+						alt = bytes.TrimSuffix(bytes.ReplaceAll(x, []byte("\n"), []byte("\r\n")), []byte("\n"))
+					default:
+						alt = bytes.ReplaceAll(x, []byte("\n"), []byte("\r"))
+					}
+					refAlt, _ := collect(cd.seq(bytes.NewReader(alt)), len(alt)+8)
+					refLF, _ := collect(cd.seq(bytes.NewReader(x)), len(x)+8)
+					ok := len(refAlt) == len(refLF) && len(refAlt) > 0
+					for _, it := range refAlt {
+						ok = ok && !it.Err
+					}
+					if ok {
+						x = alt
+						k.Count("inputs_with_other_line_ends", 1)
+					}
+				}
 				k.Input("format", f)
 				k.Input("input", func() string { return describeText(x) })
 				ref, _ := collect(cd.seq(bytes.NewReader(x)), len(x)+8)
